@@ -106,10 +106,15 @@ def check_tikz(O, S, leafmap, m, evs, labmode, scheme, colid, orient, stubspec=(
     try:
         rec, onode, snode, on, sn = R.build_rec(O, S, leafmap, m, lab, scheme=scheme, colours=colours, reverse_mapping=reverse_mapping)
         params = DrawParams(orientation=R.ORIENT[orient])
+        before = (None if lab is None else {k: list(v) for k, v in rec.syntenies.items()}, dict(rec.object_species))
         lay = layout_mod.compute(rec, params)
         code = tikz_mod.render(rec, lay, params)
+        after = (None if lab is None else {k: list(v) for k, v in rec.syntenies.items()}, dict(rec.object_species))
     except Exception as exc:
         return ("exception", f"{type(exc).__name__}: {exc}\n{traceback.format_exc(limit=6)}")
+    if before != after:
+        return ("caller_object_modified", "drawing changed the syntenies / mapping of the reconciliation it was given: "
+                f"{[list(v) for v in (before[0] or {}).values()][:3]} -> {[list(v) for v in (after[0] or {}).values()][:3]}")
     # ---- well-formedness
     bad = reftext.brace_balance(code)
     if bad:
